@@ -4,6 +4,7 @@
 package c09
 
 import (
+	"bytes"
 	"context"
 	"fmt"
 	"net/netip"
@@ -103,7 +104,7 @@ func TestCheck(t *testing.T) {
 			}
 			runIP(r, nsock, nil)
 		}
-		r.Extra["rule"] = "SCION listener (IPv4/IPv4, IPv6/IPv6, IPv4/IPv6 and IPv6/IPv4 client/server hosts x empty / two-segment SCION / one-hop path): the same payload space inside valid SCION/UDP packets, replies parsed with the SCION library (last hop, reversed path, swapped addresses and ports); IP listener (1 and 2 SO_REUSEPORT sockets): all 256 first bytes x 4 header fills x every datagram length 0..100 (200) and 1023..1025, 2047, 2048 x trailers {zeros, 0xff, constant}; valid NTS requests (pool levels 8 and 5, alternating between two client associations of the same server) around every first byte, and with single flipped bytes (every byte for three first bytes; thorough: for every valid first byte); every reply is fed back into the listener. Distinct = distinct datagrams; non-trivial = length >= 48 (reaches validation)"
+		r.Extra["rule"] = "SCION listener (IPv4/IPv4, IPv6/IPv6, IPv4/IPv6 and IPv6/IPv4 client/server hosts x empty / two-segment SCION / one-hop path): the same payload space inside valid SCION/UDP packets, replies parsed with the SCION library (last hop, reversed path, swapped addresses and ports); IP listener (1 and 2 SO_REUSEPORT sockets): all 256 first bytes x 4 header fills x every datagram length 0..100 (200) and 1023..1025, 2047, 2048 x trailers {zeros, 0xff, constant}; valid NTS requests (pool levels 8 and 5, alternating between two client associations of the same server) around every first byte, requests sealed without the project's encoder with unique identifiers of 0..31 bytes (no reply) and 32..200 bytes (one reply), and with single flipped bytes (every byte for three first bytes; thorough: for every valid first byte); every reply is fed back into the listener. Distinct = distinct datagrams; non-trivial = length >= 48 (reaches validation)"
 	})
 }
 
@@ -245,6 +246,16 @@ func runIP(r *mc.Run, nsock int, only *dgram) {
 			p, ok := build(*only)
 			send(*only, p, ok, 0)
 			return
+		}
+		// requests that verify under the session key but whose unique identifier is
+		// shorter than the 32 bytes a valid NTS request carries: no reply; 32 bytes and
+		// more (as long as a reply with a cookie still fits): one reply
+		for _, n := range []int{0, 1, 16, 28, 29, 30, 31, 32, 36, 64, 200} {
+			ck := sess.Cookie()
+			// (an identifier whose length is not a multiple of 4 goes out unpadded: the
+			// field length is all that tells the value's length)
+			req := kit.Seal(header(0x23, "client"), []kit.Ext{{Type: 0x0104, Body: bytes.Repeat([]byte{0x3d}, n), NoPad: true}, {Type: 0x0204, Body: ck}}, nil, sess.C2S, byte(n))
+			send(dgram{First: 0x23, Fill: "client", Trailer: fmt.Sprintf("sealed-uid=%d", n), Len: len(req)}, req, n >= 32, 0)
 		}
 		sampled := 0
 		for first := 0; first < 256; first++ {
